@@ -221,6 +221,128 @@ theorem table_disciplined : disciplined accessTable = true := by decide +kernel
     cell / immutable after initialisation / handler-thread only). -/
 theorem table_covered : accessTable.all covered = true := by decide +kernel
 
+theorem holds_spec {r : Row Loc Lock} {l : Lock} {b : Bool} (h : holds r l b = true) :
+    ∃ x ∈ r.locks, x.1 = l ∧ (b = true → x.2 = Mode.excl) := by
+  unfold holds at h
+  obtain ⟨x, hx, hxl⟩ := List.any_eq_true.mp h
+  simp only [Bool.and_eq_true, beq_iff_eq, Bool.or_eq_true, Bool.not_eq_true'] at hxl
+  refine ⟨x, hx, hxl.1, ?_⟩
+  intro hb
+  rcases hxl.2 with h1 | h1
+  · rw [hb] at h1; cases h1
+  · exact h1
+
+theorem commonLock_of {r s : Row Loc Lock} {x y : Lock × Mode} (hx : x ∈ r.locks) (hy : y ∈ s.locks)
+    (hl : x.1 = y.1) (hm : x.2 = Mode.excl ∨ y.2 = Mode.excl) : commonLock r s = true := by
+  unfold commonLock
+  apply List.any_eq_true.mpr
+  refine ⟨x, hx, List.any_eq_true.mpr ⟨y, hy, ?_⟩⟩
+  simp only [Bool.and_eq_true, beq_iff_eq, Bool.or_eq_true]
+  exact ⟨hl, hm⟩
+
+/-- The protections of AccessExpect.lean imply the lockset discipline, for every table over
+    the generated locations: if each row is covered by the protection stated for its location,
+    every conflicting pair is fine. -/
+theorem protection_sound (T : List (Row Loc Lock)) (hT : T.all covered = true) :
+    disciplined T = true := by
+  unfold disciplined
+  apply List.all_eq_true.mpr
+  intro r hr
+  apply List.all_eq_true.mpr
+  intro s hs
+  have cr := List.all_eq_true.mp hT r hr
+  have cs := List.all_eq_true.mp hT s hs
+  unfold pairOK
+  cases hc : rowConflict r s with
+  | false => simp
+  | true =>
+    cases hcc : concurrentRoles r.role s.role with
+    | false => simp
+    | true =>
+      simp only [Bool.and_self, Bool.not_true, Bool.false_or]
+      unfold rowConflict at hc
+      simp only [Bool.and_eq_true, beq_iff_eq, Bool.or_eq_true, Bool.not_eq_true'] at hc
+      obtain ⟨⟨⟨⟨hloc, hw⟩, hat⟩, hfr⟩, hfs⟩ := hc
+      unfold concurrentRoles at hcc
+      simp only [Bool.and_eq_true, bne_iff_ne, ne_eq, Bool.not_eq_true', beq_eq_false_iff_ne, Bool.and_eq_false_iff] at hcc
+      obtain ⟨⟨hri, hsi⟩, hmm⟩ := hcc
+      unfold covered at cr cs
+      have hri' : (r.role == Role.init) = false := by simpa using hri
+      have hsi' : (s.role == Role.init) = false := by simpa using hsi
+      rw [hfr, hri'] at cr
+      rw [hfs, hsi'] at cs
+      simp only [Bool.false_or] at cr cs
+      rw [← hloc] at cs
+      cases hp : protection r.loc with
+      | guardedBy l =>
+        rw [hp] at cr cs
+        simp only at cr cs
+        obtain ⟨x, hx, hxl, hxm⟩ := holds_spec cr
+        obtain ⟨y, hy, hyl, hym⟩ := holds_spec cs
+        apply commonLock_of hx hy (hxl.trans hyl.symm)
+        rcases hw with h | h
+        · exact Or.inl (hxm (by simp [h]))
+        · exact Or.inr (hym (by simp [h]))
+      | atomicCell =>
+        rw [hp] at cr cs
+        simp only at cr cs
+        rw [cr, cs] at hat
+        simp at hat
+      | immutableAfterInit =>
+        rw [hp] at cr cs
+        simp only [beq_iff_eq] at cr cs
+        rw [cr, cs] at hw
+        simp at hw
+      | mainOnly =>
+        rw [hp] at cr cs
+        simp only [beq_iff_eq] at cr cs
+        rcases hmm with h | h
+        · exact absurd cr h
+        · exact absurd cs h
+      | mainOwned l =>
+        rw [hp] at cr cs
+        simp only at cr cs
+        by_cases hrm : r.role = Role.main
+        · have hsm : s.role ≠ Role.main := by
+            rcases hmm with h | h
+            · exact absurd hrm h
+            · exact h
+          simp only [hrm, beq_self_eq_true, if_true, Bool.or_eq_true, beq_iff_eq] at cr
+          have hsm' : (s.role == Role.main) = false := by simpa using hsm
+          simp only [hsm', Bool.false_eq_true, if_false, Bool.and_eq_true, beq_iff_eq] at cs
+          obtain ⟨y, hy, hyl, _⟩ := holds_spec cs.2
+          have hrw : r.kind = Kind.write := by
+            rcases hw with h | h
+            · exact h
+            · rw [cs.1] at h; cases h
+          rcases cr with h | h
+          · rw [h] at hrw; cases hrw
+          · obtain ⟨x, hx, hxl, hxm⟩ := holds_spec h
+            exact commonLock_of hx hy (hxl.trans hyl.symm) (Or.inl (hxm rfl))
+        · have hrm' : (r.role == Role.main) = false := by simpa using hrm
+          simp only [hrm', Bool.false_eq_true, if_false, Bool.and_eq_true, beq_iff_eq] at cr
+          obtain ⟨x, hx, hxl, _⟩ := holds_spec cr.2
+          by_cases hsm : s.role = Role.main
+          · simp only [hsm, beq_self_eq_true, if_true, Bool.or_eq_true, beq_iff_eq] at cs
+            have hsw : s.kind = Kind.write := by
+              rcases hw with h | h
+              · rw [cr.1] at h; cases h
+              · exact h
+            rcases cs with h | h
+            · rw [h] at hsw; cases hsw
+            · obtain ⟨y, hy, hyl, hym⟩ := holds_spec h
+              exact commonLock_of hx hy (hxl.trans hyl.symm) (Or.inr (hym rfl))
+          · have hsm' : (s.role == Role.main) = false := by simpa using hsm
+            simp only [hsm', Bool.false_eq_true, if_false, Bool.and_eq_true, beq_iff_eq] at cs
+            rcases hw with h | h
+            · rw [cr.1] at h; cases h
+            · rw [cs.1] at h; cases h
+
+/-- The discipline of the regenerated table, derived a second time: from the per-location
+    protections instead of the pairwise check. -/
+theorem table_disciplined_by_protection : disciplined accessTable = true :=
+  protection_sound accessTable table_covered
+
 /-- The lock-acquisition nesting extracted from the source is acyclic (strictly ranked). -/
 theorem lock_order_acyclic : acyclicBy lockRank lockOrder = true := by decide +kernel
 
@@ -325,19 +447,52 @@ section bg
 open HL.Bg
 variable {Text Res Resp : Type}
 
-/-- Invariant of the background-task model, per document: while no task overlap has happened,
-    at most one task is in flight, it carries the current text, and with nothing in flight
-    the stored result is the one of the current text. -/
-def BgInv (load : Text → Res) (σ : St Text Res) (u : Nat) : Prop :=
-  σ.overlap u = false →
-    (σ.pending u).length ≤ 1 ∧ (∀ t ∈ σ.pending u, σ.docs u = some t) ∧
-    (σ.pending u = [] → ∀ t, σ.docs u = some t → σ.resolved u = some (load t))
+theorem mem_eraseIdx_or {α : Type} (l : List α) (i : Nat) (x : α) (h : x ∈ l) :
+    x ∈ l.eraseIdx i ∨ l[i]? = some x := by
+  induction l generalizing i with
+  | nil => cases h
+  | cons y r ih =>
+    cases i with
+    | zero =>
+      rcases List.mem_cons.mp h with rfl | h
+      · exact Or.inr rfl
+      · exact Or.inl h
+    | succ n =>
+      rcases List.mem_cons.mp h with rfl | h
+      · exact Or.inl List.mem_cons_self
+      · rcases ih n h with h1 | h1
+        · exact Or.inl (List.mem_cons_of_mem _ h1)
+        · exact Or.inr h1
 
-theorem bgInv_init (load : Text → Res) (u : Nat) : BgInv load (St.init : St Text Res) u := by
-  intro _
-  refine ⟨by simp [St.init], by simp [St.init], ?_⟩
-  intro _ t h
-  simp [St.init] at h
+/-- Invariant of the background-task model, per document. -/
+structure BgInv (load : Text → Res) (σ : St Text Res) (u : Nat) : Prop where
+  /-- numbers of tasks in flight were drawn from the counter; the task that carries the
+      document's current number carries its current text -/
+  tasks : ∀ p ∈ σ.pending u, 1 ≤ p.2 ∧ p.2 ≤ σ.seq ∧ (p.2 = σ.ver u → σ.docs u = some p.1)
+  verLe : σ.ver u ≤ σ.seq
+  /-- the stored tree is never the tree of another text -/
+  fresh : σ.resolved u = none ∨ ∃ t, σ.docs u = some t ∧ σ.resolved u = some (load t)
+  /-- once the current task has stored, the tree is there -/
+  stored : ∀ t, σ.docs u = some t → settled σ u = true → σ.resolved u = some (load t)
+
+theorem bgInv_init (load : Text → Res) (u : Nat) : BgInv load (St.init : St Text Res) u where
+  tasks := by intro p hp; simp [St.init] at hp
+  verLe := by simp [St.init]
+  fresh := Or.inl rfl
+  stored := by intro t h; simp [St.init] at h
+
+theorem settled_of_erase {σ : St Text Res} {u i : Nat} {t : Text} {v : Nat}
+    (hg : (σ.pending u)[i]? = some (t, v)) (hv : v ≠ σ.ver u)
+    (h : ((σ.pending u).eraseIdx i).all (fun p => p.2 != σ.ver u) = true) :
+    (σ.pending u).all (fun p => p.2 != σ.ver u) = true := by
+  apply List.all_eq_true.mpr
+  intro p hp
+  rcases mem_eraseIdx_or _ i p hp with h1 | h1
+  · exact List.all_eq_true.mp h p h1
+  · rw [hg] at h1
+    injection h1 with h1
+    subst h1
+    simpa using hv
 
 theorem bgInv_step (load : Text → Res) (σ : St Text Res) (e : Ev Text) (u : Nat)
     (h : BgInv load σ u) : BgInv load (step load σ e) u := by
@@ -345,56 +500,122 @@ theorem bgInv_step (load : Text → Res) (σ : St Text Res) (e : Ev Text) (u : N
   | change u' t =>
     by_cases hu : u = u'
     · subst hu
-      intro ho
-      simp only [step, Bg.upd, if_true, decide_eq_false_iff_not, Nat.not_lt, Nat.le_zero_eq,
-        List.length_eq_zero_iff] at ho
-      simp only [step, Bg.upd, if_true, ho, List.nil_append]
-      refine ⟨by simp, by simp, by simp⟩
-    · intro ho
-      simp only [step, Bg.upd, hu, if_false] at ho ⊢
-      exact h ho
+      refine ⟨?_, ?_, ?_, ?_⟩
+      · intro p hp
+        simp only [step, Bg.upd, if_true, List.mem_append, List.mem_singleton] at hp ⊢
+        rcases hp with hp | rfl
+        · obtain ⟨h1, h2, _⟩ := h.tasks p hp
+          exact ⟨h1, by omega, fun he => by omega⟩
+        · exact ⟨by simp, by simp, fun _ => rfl⟩
+      · simp [step, Bg.upd]
+      · exact Or.inl (by simp [step, Bg.upd])
+      · intro t' _ hs
+        simp [step, Bg.upd, settled] at hs
+    · refine ⟨?_, ?_, ?_, ?_⟩
+      · intro p hp
+        simp only [step, Bg.upd, hu, if_false] at hp ⊢
+        obtain ⟨h1, h2, h3⟩ := h.tasks p hp
+        exact ⟨h1, by omega, h3⟩
+      · have := h.verLe
+        simp only [step, Bg.upd, hu, if_false]; omega
+      · simpa [step, Bg.upd, hu] using h.fresh
+      · intro t' hd hs
+        simp only [step, Bg.upd, hu, if_false, settled] at hd hs ⊢
+        exact h.stored t' hd hs
+  | close u' =>
+    by_cases hu : u = u'
+    · subst hu
+      refine ⟨?_, ?_, ?_, ?_⟩
+      · intro p hp
+        simp only [step, Bg.upd, if_true] at hp ⊢
+        obtain ⟨h1, h2, _⟩ := h.tasks p hp
+        exact ⟨h1, h2, fun he => by omega⟩
+      · simp [step, Bg.upd]
+      · exact Or.inl (by simp [step, Bg.upd])
+      · intro t' hd
+        simp [step, Bg.upd] at hd
+    · refine ⟨?_, ?_, ?_, ?_⟩
+      · intro p hp
+        simp only [step, Bg.upd, hu, if_false] at hp ⊢
+        exact h.tasks p hp
+      · simpa [step, Bg.upd, hu] using h.verLe
+      · simpa [step, Bg.upd, hu] using h.fresh
+      · intro t' hd hs
+        simp only [step, Bg.upd, hu, if_false, settled] at hd hs ⊢
+        exact h.stored t' hd hs
   | finish u' i =>
     simp only [step]
     split
     · exact h
-    · rename_i t ht
+    · rename_i t v hg
       by_cases hu : u = u'
       · subst hu
-        intro ho
-        simp only [Bg.upd, if_true] at ho ⊢
-        obtain ⟨hlen, hdoc, _⟩ := h ho
-        -- at most one task in flight and index i hits it: it is the only one, i = 0
-        match hp : σ.pending u, hlen, ht with
-        | [], _, ht => simp at ht
-        | [t0], _, ht =>
-          have hi : i = 0 := by
-            cases i with
-            | zero => rfl
-            | succ n => simp at ht
-          subst hi
-          simp only [List.getElem?_cons_zero, Option.some.injEq] at ht
-          subst ht
-          have hd := hdoc t0 (by simp [hp])
-          refine ⟨by simp, by simp, ?_⟩
-          intro _ t' ht'
-          rw [hd] at ht'
-          injection ht' with ht'
-          rw [ht']
-        | _ :: _ :: _, hl, _ => simp at hl
-      · intro ho
-        simp only [Bg.upd, hu, if_false] at ho ⊢
-        exact h ho
+        have hmem : (t, v) ∈ σ.pending u := List.mem_of_getElem? hg
+        obtain ⟨_, _, hcur⟩ := h.tasks (t, v) hmem
+        refine ⟨?_, ?_, ?_, ?_⟩
+        · intro p hp
+          simp only [Bg.upd, if_true] at hp ⊢
+          exact h.tasks p (List.mem_of_mem_eraseIdx hp)
+        · exact h.verLe
+        · by_cases hv : v = σ.ver u
+          · simp only [hv, if_true, Bg.upd]
+            exact Or.inr ⟨t, hcur hv, rfl⟩
+          · simp only [hv, if_false]
+            exact h.fresh
+        · intro t' hd hs
+          by_cases hv : v = σ.ver u
+          · simp only [hv, if_true, Bg.upd]
+            have := hcur hv
+            simp only at hd
+            rw [this] at hd
+            injection hd with hd
+            simp only at hd
+            rw [hd]
+          · simp only [hv, if_false]
+            simp only [settled, Bg.upd, if_true, Bool.and_eq_true] at hs
+            apply h.stored t' hd
+            simp only [settled, Bool.and_eq_true]
+            exact ⟨settled_of_erase hg hv hs.1, hs.2⟩
+      · refine ⟨?_, h.verLe, ?_, ?_⟩
+        · intro p hp
+          simp only [Bg.upd, hu, if_false] at hp ⊢
+          exact h.tasks p hp
+        · by_cases hv : v = σ.ver u'
+          · simp only [hv, if_true, Bg.upd, hu, if_false]; exact h.fresh
+          · simp only [hv, if_false]; exact h.fresh
+        · intro t' hd hs
+          simp only [settled, Bg.upd, hu, if_false] at hs
+          have := h.stored t' hd hs
+          by_cases hv : v = σ.ver u'
+          · simp only [hv, if_true, Bg.upd, hu, if_false]; exact this
+          · simp only [hv, if_false]; exact this
   | skip u' i =>
     simp only [step]
     split
     · exact h
-    · by_cases hu : u = u'
+    · rename_i t v hg
+      by_cases hu : u = u'
       · subst hu
-        intro ho
-        simp [Bg.upd] at ho
-      · intro ho
-        simp only [Bg.upd, hu, if_false] at ho ⊢
-        exact h ho
+        refine ⟨?_, h.verLe, h.fresh, ?_⟩
+        · intro p hp
+          simp only [Bg.upd, if_true] at hp ⊢
+          exact h.tasks p (List.mem_of_mem_eraseIdx hp)
+        · intro t' hd hs
+          by_cases hv : v = σ.ver u
+          · simp [settled, hv, Bg.upd] at hs
+          · simp only [settled, hv, if_false, Bg.upd, if_true, Bool.and_eq_true] at hs
+            apply h.stored t' hd
+            simp only [settled, Bool.and_eq_true]
+            exact ⟨settled_of_erase hg hv hs.1, hs.2⟩
+      · refine ⟨?_, h.verLe, h.fresh, ?_⟩
+        · intro p hp
+          simp only [Bg.upd, hu, if_false] at hp ⊢
+          exact h.tasks p hp
+        · intro t' hd hs
+          apply h.stored t' hd
+          by_cases hv : v = σ.ver u'
+          · simpa [settled, hv, Bg.upd, hu] using hs
+          · simpa [settled, hv, Bg.upd, hu] using hs
 
 theorem bgInv_run (load : Text → Res) (es : List (Ev Text)) (u : Nat) :
     BgInv load (run load es) u := by
@@ -405,57 +626,65 @@ theorem bgInv_run (load : Text → Res) (es : List (Ev Text)) (u : Nat) :
   | nil => intro σ h; exact h
   | cons e r ih => intro σ h; exact ih _ (bgInv_step load σ e u h)
 
-/-- **Responses are a function of the document state — guarded.**  For every history of
-    opens / changes and every scheduling of the background tasks (any order of completion),
-    for every handler `h` and every loader: if the requested document is settled (no task of
-    it in flight, and since the last task started on the idle document none was started while
-    another one was in flight and none ended without storing) the response equals the response
-    computed from the document text alone. -/
+/-- **The stored include tree is never the tree of another text.**  For every history of
+    opens / changes / closes and every scheduling of the background tasks (any order of
+    completion, any of them skipped): `Server.resolved[u]` is absent or is the tree loaded
+    from the CURRENT text of `u`. -/
+theorem resolved_never_stale (load : Text → Res) (es : List (Ev Text)) (u : Nat) :
+    (run load es).resolved u = none ∨
+    ∃ t, (run load es).docs u = some t ∧ (run load es).resolved u = some (load t) :=
+  (bgInv_run load es u).fresh
+
+/-- **Responses are a function of the document state.**  Consequently every response of a
+    handler that reads `Server.resolved` is one of two functions of the document's current
+    text — the handler with the tree of that text, or its fall-back without a tree —
+    whatever the history and the scheduling were. -/
+theorem response_is_function_of_state (load : Text → Res) (h : Text → Option Res → Resp)
+    (es : List (Ev Text)) (u : Nat) :
+    respond h (run load es) u = specRespond load h (run load es) u ∨
+    respond h (run load es) u = bareRespond h (run load es) u := by
+  unfold respond specRespond bareRespond
+  rcases resolved_never_stale load es u with hn | ⟨t, hd, hr⟩
+  · right; rw [hn]
+  · left; rw [hd, hr]; rfl
+
+/-- ... and it is the first of the two — the response computed from the document state at the
+    moment of the request — as soon as the task of the current content has stored its tree. -/
 theorem response_is_function_of_state_partial (load : Text → Res) (h : Text → Option Res → Resp)
     (es : List (Ev Text)) (u : Nat) (hs : settled (run load es) u = true) :
     respond h (run load es) u = specRespond load h (run load es) u := by
-  simp only [settled, Bool.and_eq_true, List.isEmpty_iff, Bool.not_eq_true'] at hs
-  obtain ⟨_, _, hres⟩ := bgInv_run load es u hs.2
   unfold respond specRespond
   cases hd : (run load es).docs u with
   | none => rfl
-  | some t => simp [hres hs.1 t hd]
+  | some t => simp [(bgInv_run load es u).stored t hd hs]
 
-/-- Non-vacuity: a history with two documents and interleaved completions is settled. -/
+/-- Non-vacuity: two documents, overlapping changes, tasks finishing out of order — settled. -/
 example : settled (run (fun t : Nat => t + 100)
-    [.change 0 1, .change 1 5, .finish 1 0, .finish 0 0, .change 0 2, .finish 0 0]) 0 = true := by
+    [.change 0 1, .change 1 5, .change 0 2, .finish 0 1, .finish 1 0, .finish 0 0]) 0 = true ∧
+    (run (fun t : Nat => t + 100)
+    [.change 0 1, .change 1 5, .change 0 2, .finish 0 1, .finish 1 0, .finish 0 0]).resolved 0
+      = some 102 := by
   decide
 
-/-- Known finding `stale-resolved`, first form: a request handled while the document's task is
-    still in flight is answered from the previous text's journal. -/
-theorem stale_resolved_counterexample :
+/-- Known finding `resolved-pending`: a request handled before the task of the current content
+    has stored its tree is answered by the fall-back, which differs from the response computed
+    from the document state whenever the tree matters (a document with includes). -/
+theorem resolved_pending_counterexample :
     let load := fun t : Nat => t + 100
     let h := fun (t : Nat) (r : Option Nat) => (t, r)
     let es : List (Ev Nat) := [.change 0 1, .finish 0 0, .change 0 2]
-    respond h (run load es) 0 = some (2, some 101) ∧
+    respond h (run load es) 0 = some (2, none) ∧
     specRespond load h (run load es) 0 = some (2, some 102) := by
   decide
 
-/-- Known finding `stale-resolved`, second form: two changes in a row, the later task finishes
-    first, the earlier one overwrites its result — with nothing in flight any more the stored
-    journal is the one of the OLD text, and stays so until the next change. -/
-theorem stale_after_quiescence_counterexample :
-    let load := fun t : Nat => t + 100
-    let h := fun (t : Nat) (r : Option Nat) => (t, r)
-    let es : List (Ev Nat) := [.change 0 1, .change 0 2, .finish 0 1, .finish 0 0]
-    (run load es).pending 0 = [] ∧
-    respond h (run load es) 0 = some (2, some 101) ∧
-    specRespond load h (run load es) 0 = some (2, some 102) := by
-  decide
-
-/-- Known finding `stale-resolved`, third form: the task of the current text found diagnostics
-    switched off and returned before the load. -/
-theorem stale_after_skip_counterexample :
+/-- ... and with diagnostics switched off the task ends without loading, so the fall-back
+    stays for good. -/
+theorem resolved_pending_after_skip_counterexample :
     let load := fun t : Nat => t + 100
     let h := fun (t : Nat) (r : Option Nat) => (t, r)
     let es : List (Ev Nat) := [.change 0 1, .finish 0 0, .change 0 2, .skip 0 0]
     (run load es).pending 0 = [] ∧
-    respond h (run load es) 0 = some (2, some 101) ∧
+    respond h (run load es) 0 = some (2, none) ∧
     specRespond load h (run load es) 0 = some (2, some 102) := by
   decide
 
